@@ -129,6 +129,18 @@ structure ClusterMove (fr : SkOp → Bool) (b a : Config) : Prop where
   /-- variables without ops are not touched -/
   idle : ∀ v, varHasOp (skeleton b.slots) v = false → a.state[v]? = b.state[v]?
 
+/-! ### explicit reading of the links (used to state what `linkClosed` means leg by leg) -/
+
+/-- value carried by the input / output leg of `o` on variable `v` -/
+def Op.legIn (o : Op) (v : Nat) : Option Bool := (o.vars.zip o.ins).lookup v
+def Op.legOut (o : Op) (v : Nat) : Option Bool := (o.vars.zip o.outs).lookup v
+
+/-- input leg of the first op on `v` in the (remaining) string -/
+def firstIn (v : Nat) : Slots → Option Bool
+  | [] => none
+  | none :: t => firstIn v t
+  | some o :: t => if o.vars.contains v then o.legIn v else firstIn v t
+
 /-! ### decider -/
 
 def opOkB (fr : SkOp → Bool) (ob oa : Op) : Bool :=
